@@ -1066,7 +1066,7 @@ class _Frame:
         if isinstance(obj, XArray):
             if attr == "T":
                 return obj.T
-            if attr in ("shape", "ndim", "size"):
+            if attr in ("shape", "ndim", "size", "flags"):
                 return getattr(obj, attr)
             if attr in ("reshape", "ravel", "flatten", "transpose", "copy", "sum", "mean", "tolist", "max", "min"):
                 return getattr(obj, attr)
@@ -1388,6 +1388,28 @@ def _kind_of(dtype):
     if dtype is complex or (isinstance(dtype, _NpAttr) and dtype.path.startswith("complex")) or dtype == "c":
         return "c"
     return None
+
+
+def _np_kron(a, b):
+    """np.kron of two arrays: leading axes of b kept as batch when a is 2-D and b is (..., m, n)"""
+    A, B = XArray.from_nested(a), XArray.from_nested(b)
+    if A.ndim != 2 or B.ndim < 2:
+        raise XArrayError("np.kron on these ranks is not modelled")
+    if B.ndim == 2:
+        (p, q), (m, n) = A.shape, B.shape
+        return XArray((p * m, q * n), [A[i // m, j // n] * B[i % m, j % n] for i in range(p * m) for j in range(q * n)])
+    # numpy pads a with leading 1-axes: kron acts on the last two axes, the batch axes of b are kept
+    lead = B.shape[:-2]
+    m, n = B.shape[-2:]
+    p, q = A.shape
+    import itertools as _it
+
+    data = []
+    for ix in _it.product(*[range(k) for k in lead]):
+        for i in range(p * m):
+            for j in range(q * n):
+                data.append(A[i // m, j // n] * B[ix + (i % m, j % n)])
+    return XArray(lead + (p * m, q * n), data)
 
 
 def _np_result_type(*args):
@@ -1789,6 +1811,7 @@ _NP_FUNCS = {
     "zeros": _np_zeros,
     "empty": _np_zeros,
     "result_type": _np_result_type,
+    "kron": _np_kron,
     "ones": _np_ones,
     "eye": _np_eye,
     "identity": _np_eye,
